@@ -261,6 +261,31 @@ CHECKS = {
 NOT_YET = "check not built yet in this round (planned: see DESIGN.md section 5)"
 
 
+
+# what the later rounds of seeded changes added (appended to the texts above)
+ADDED = {
+    "C02": " The caps and the stock regime in force must be the configured ones (IntakeCapsAsConfigured, StockRegimeAsConfigured).",
+    "C04": " What the result reports per food for feed and for biofuel must be what the optimiser sent there, and a round's reported series must "
+           "not change once it has been interpreted (output options - figures on, no title - are exercised by dedicated corpus runs).",
+    "C05": " The feed round's ceiling is what its herds eat when offered the whole demand; herds start from the configured head counts and are "
+           "offered grass by the documented calendar.",
+    "C06": " Every herd the stock table lists with animals in it is simulated (India's beef herd is the documented exception); target size, baseline "
+           "slaughter and the livestock-unit factor come from the data tables, not from the simulated object.",
+    "C11": " The universe has a base that is dimensionless in two nutrients only, an all-zero operand and one-month series; results must not depend on "
+           "which nutrients the run counts; comparison predicates are also replayed on ties, on boundary values and on operands of mixed shapes.",
+    "C13": " Documented values that live in the data (waste levels, distribution losses, country nuclear-winter ratios) are evaluated against five "
+           "country rows; a value must reach the setter the dispatch table names; near misses of the known-to-fail table keep the requested shut-off.",
+    "C14": " Every run asks for all tables to be saved: their contents are part of the observation, and in a shared by-country call the tables of "
+           "the earlier country are compared with those of its run alone.",
+    "C15": " Cases also go through one long-lived runner, with a population override, with a failing country, with a code that is not in the table; "
+           "the caller's list must be left as it was; one aggregate (DJI, MUS, KOR, PRK) runs with nothing stubbed, results returned and every table saved.",
+    "C18": " On corpus runs the threshold is the configured one, the meat the feed round is really given is at or above the no-feed round's, the "
+           "running total a round is told is the cumulative sum of its monthly series, and what the final round is charged is what the adjustment returned.",
+}
+for _k, _v in ADDED.items():
+    CHECKS[_k]["text"] += _v
+
+
 def main():
     checks = []
     for pid in ALL:
